@@ -60,7 +60,7 @@ class Layout:
             k = r.randint(1, 3)
             self.feats.add('multi-line-define')
             return ['#define ML%d(a) a + \\' % self._n()] + ['    %d + \\' % i for i in range(k - 1)] + ['    0']
-        if c < 0.76 and 'multi-line-define' not in self.avoid:
+        if c < 0.76 and 'continuation-in-code' not in self.avoid:
             self.feats.add('continuation-in-code')
             return ['w = 1 + \\', '    2;']
         if c < 0.88:
